@@ -431,6 +431,34 @@ func provablyNonNilError(c *chk.Ctx, arg ssa.Value, at ssa.Instruction) (bool, s
 			return true, "dominated by a != nil check"
 		}
 	}
+	// the parameter of a private helper ("the reader failed with err"): non-nil when it is so at
+	// every call of the helper
+	if prm, isParam := ir.NormCell(arg).(*ssa.Parameter); isParam {
+		f := prm.Parent()
+		idx := -1
+		for i, q := range f.Params {
+			if q == prm {
+				idx = i
+			}
+		}
+		sites := c.P.Callers(f)
+		if idx >= 0 && len(sites) > 0 && !ir.Exported(f) && !c.P.UsedAsValue(f) {
+			all := true
+			for _, s := range sites {
+				args := s.Instr.Common().Args
+				if idx >= len(args) || s.Caller == f {
+					all = false
+					break
+				}
+				if ok, _ := provablyNonNilError(c, args[idx], s.Instr); !ok {
+					all = false
+				}
+			}
+			if all {
+				return true, "non-nil at every call of " + ir.Name(f)
+			}
+		}
+	}
 	return false, "not a never-reassigned package error and not dominated by a != nil check"
 }
 
@@ -450,14 +478,7 @@ func ruleRunRestart(c *chk.Ctx) {
 	needs := []need{
 		{c.M.SCh, "channel installed", func(v ssa.Value) bool { return !ir.IsNilConst(v) }},
 		{c.M.SErr, "stop cause cleared", func(v ssa.Value) bool { return ir.IsNilConst(v) }},
-		{c.M.SWork, "work channel re-made (buffered)", func(v ssa.Value) bool {
-			mk, ok := v.(*ssa.MakeChan)
-			if !ok {
-				return false
-			}
-			k, isC := ir.ConstInt(mk.Size)
-			return isC && k >= 1
-		}},
+		{c.M.SWork, "work channel re-made (buffered)", func(v ssa.Value) bool { return isBufferedChanMake(c, v, 0) }},
 	}
 	for _, n := range needs {
 		found := false
@@ -662,9 +683,28 @@ func ruleReaderExitStops(c *chk.Ctx, owner string) {
 	}
 	stopDominates := func(at ssa.Instruction) bool {
 		found := false
-		ir.Calls(at.Parent(), func(ci ssa.CallInstruction) {
+		isStopCall := func(i ssa.Instruction) bool {
+			ci, ok := i.(ssa.CallInstruction)
+			if !ok {
+				return false
+			}
 			for _, g := range calleesOf(c, ci) {
-				if g == stop && (ir.InstrDominates(ci, at) || ci == at) {
+				if g == stop {
+					return true
+				}
+			}
+			return false
+		}
+		ir.Calls(at.Parent(), func(ci ssa.CallInstruction) {
+			if !(ir.InstrDominates(ci, at) || ci == at) {
+				return
+			}
+			for _, g := range calleesOf(c, ci) {
+				if g == stop {
+					found = true
+				}
+				// (a private helper that stops the owner on every path: "the reader failed")
+				if _, plain := ci.(*ssa.Call); plain && g != stop && c.P.InRepo[g] && !ir.Exported(g) && len(calleesOf(c, ci)) == 1 && c.P.MustPass(g, isStopCall, 0) {
 					found = true
 				}
 			}
@@ -829,6 +869,14 @@ func ruleReaderExitStops(c *chk.Ctx, owner string) {
 					if alreadyStoppedConds(ir.EdgeConds(b, sc)) {
 						continue // the edge itself is the already-stopped outcome
 					}
+					if owner == "client" && len(r.Results) == 1 {
+						// (an edge on which the returned error is known to be nil leads to a
+						// return that lets the loop go on: not an exit)
+						rv := ir.ReturnResult(r, 0)
+						if own, has := ir.EdgeOwnCond(b, sc); has && ir.ProvesNil(ir.NormConds([]ir.Cond{own}), func(x ssa.Value) bool { return x == rv }) {
+							continue
+						}
+					}
 					if free(sc) {
 						return true
 					}
@@ -851,10 +899,15 @@ func ruleReaderExitStops(c *chk.Ctx, owner string) {
 				// that sets it to the exiting value follows a stop (or the already-stopped test)
 				if phi, isPhi := v.(*ssa.Phi); isPhi {
 					all, some := true, false
+					visited := map[*ssa.Phi]bool{}
 					var walkPhi func(p *ssa.Phi, depth int)
 					walkPhi = func(p *ssa.Phi, depth int) {
+						visited[p] = true
 						for i, e := range p.Edges {
-							if inner, isInner := e.(*ssa.Phi); isInner && depth < 3 {
+							if inner, isInner := e.(*ssa.Phi); isInner && visited[inner] {
+								continue // the flag carried round the loop unchanged
+							}
+							if inner, isInner := e.(*ssa.Phi); isInner && depth < 4 {
 								walkPhi(inner, depth+1)
 								continue
 							}
@@ -962,4 +1015,29 @@ func readerContinueValue(c *chk.Ctx, reader *ssa.Function) (known, val bool) {
 		return true, t != neg
 	}
 	return false, false
+}
+
+// isBufferedChanMake: v is a freshly made channel with a constant buffer of at
+// least one, directly or as the result of a private constructor.
+func isBufferedChanMake(c *chk.Ctx, v ssa.Value, depth int) bool {
+	switch x := v.(type) {
+	case *ssa.MakeChan:
+		k, isC := ir.ConstInt(x.Size)
+		return isC && k >= 1
+	case *ssa.ChangeType:
+		return isBufferedChanMake(c, x.X, depth)
+	case *ssa.Call:
+		g := x.Call.StaticCallee()
+		if g == nil || !c.P.InRepo[g] || ir.Exported(g) || depth > 2 {
+			return false
+		}
+		rets := ir.Returns(g)
+		for _, r := range rets {
+			if len(r.Results) != 1 || !isBufferedChanMake(c, ir.ReturnResult(r, 0), depth+1) {
+				return false
+			}
+		}
+		return len(rets) > 0
+	}
+	return false
 }
